@@ -1263,6 +1263,7 @@ func (r *replicateChannelHandler) innerHandleReplicateMsg(forward bool, msg *api
 	p.CollectionName = msg.CollectionName
 	p.PChannelName = msg.PChannelName
 	p.TaskID = msg.TaskID
+	util.VerifPoint("pack.computed", msg.PChannelName+"/"+msg.CollectionName)
 	GetTSManager().SendTargetMsg(r.getTSManagerChannelKey(r.targetPChannel), p)
 }
 
@@ -1497,6 +1498,7 @@ func (r *replicateChannelHandler) handlePack(forward bool, pack *msgstream.MsgPa
 	}
 	GetTSManager().CollectTS(tsManagerChannelKey, beginTS)
 	r.addCollectionLock.RUnlock()
+	util.VerifPoint("pack.begints", r.sourcePChannel+">"+r.targetPChannel)
 
 	if r.msgPackCallback != nil && !forward {
 		r.msgPackCallback(r.sourcePChannel, pack)
@@ -1754,6 +1756,7 @@ func (r *replicateChannelHandler) handlePack(forward bool, pack *msgstream.MsgPa
 		GetTSManager().CollectTS(tsManagerChannelKey, newPack.EndTs)
 	}
 
+	util.VerifPoint("pack.prelock", r.sourcePChannel+">"+r.targetPChannel)
 	GetTSManager().LockTargetChannel(tsManagerChannelKey)
 	defer GetTSManager().UnLockTargetChannel(tsManagerChannelKey)
 
